@@ -64,6 +64,7 @@ def generate(seed, tier="quick"):
     frng = sub(seed, "flags")
     approved = list(CATS) if frng.random() < 0.5 else [c for c in CATS if frng.random() < 0.5]
     driver = "plugin" if sub(seed, "driver").random() < 0.25 else "inline"
+    W.sprinkle_uni(prog, sub(seed, "uni"), 0.12)
     return {"program": prog, "approved": approved, "driver": driver, "fmt": draw_fmt(sub(seed, "fmt")), "repeats": 3 if frng.random() < 0.2 else 2,
             "hashseed2": hashseed2}
 
